@@ -24,6 +24,23 @@ def impl_items(impl, data):
         return "Exn " + type(e).__name__
 
 
+def impl_time_us(impl, ticks, resol, offset):
+    """one packet with these ticks through the implementation's reader and the writer main.py uses -> the microseconds written, or 'Exn'"""
+    import dpkt
+    try:
+        data = synth.pcapng([(ticks, b"\0" * 14)], tsresol=resol, tsoffset=offset)
+        ts = [t for t, _ in impl.dsb.Reader(io.BytesIO(data)) if t != -1][0]
+        out = io.BytesIO()
+        dpkt.pcapng.Writer(out, snaplen=20000).writepkt(b"\0" * 14, ts)
+        return readback.read_pcapng(out.getvalue())[0][0]
+    except Exception as e:
+        return "Exn"
+
+
+def zhex(v):
+    return ("-" if v < 0 else "") + "%x" % abs(v)
+
+
 def variants(rng, pk, dsb_text, hist):
     """the same packets (microsecond times) and secrets in different containers -> [(label, file bytes, legacy?)]"""
     out = []
@@ -61,7 +78,7 @@ def main():
             print(c["what"][:300])
         sys.exit(1)
     ck = Check("C12")
-    ck.prove(PROP)
+    ck.prove(PROP, allow_axioms=REAL_AXIOMS)
     impl = Impl()
     from tlexport import cipher_suite_parser as csp
     table = tlsgen.suite_table(csp)
@@ -82,6 +99,14 @@ def main():
             for j, p in enumerate(case.packets):
                 p["ts"] = (1_700_000_000 + 3 * j) * 10 ** 6
             hist["clock=whole-seconds"] += 1
+        elif i % 4 == 1 and case.packets:
+            # a capture made after 2038-01-19 (seconds >= 2^31), below 2^51 microseconds
+            t0 = min(p["ts"] for p in case.packets)
+            span = max(p["ts"] for p in case.packets) - t0
+            base = rng.randrange(2 ** 31 * 10 ** 6, 2 ** 51 - span - 1)
+            for p in case.packets:
+                p["ts"] = p["ts"] - t0 + base
+            hist["clock=after-2038"] += 1
         ref_file = capgen.to_pcapng(case.packets)
         st, ref = impl.run(ref_file, case.keylog, args)
         for label, data, legacy in variants(rng, case.packets, case.keylog if with_dsb else None, hist):
@@ -109,7 +134,7 @@ def main():
                 div, off, items = r
                 head, _, body = mt[3:].partition(";")
                 b_, e_, o_ = head.split(",")
-                mdiv = float(int(b_, 16) ** int(e_, 16))
+                mdiv = int(b_, 16) ** int(e_, 16)
                 moff = -int(o_[1:], 16) if o_.startswith("-") else int(o_, 16)
                 mitems = []
                 for x in (body.split("|") if body else []):
@@ -120,6 +145,48 @@ def main():
                         mitems.append(("P", moff + int(t, 16) / mdiv, bytes.fromhex(d)))
                 if (mdiv, moff, mitems) != (div, off, items):
                     disagreements.append({"what": label, "model": "%s %s %d items" % (mdiv, moff, len(mitems)), "impl": "%s %s %d items" % (div, off, len(items)), "capture": data.hex()})
+    # time stamps at the function level: ticks -> Reader -> float seconds -> dpkt Writer -> microseconds, against Model/TimeConv.time_us;
+    # whole-microsecond instants below 2^51 us must come out unchanged in every resolution (theorem C12_time_any_resolution for the model)
+    n_time = 400 if ck.tier == "quick" else 6000
+    RES = [6, 7, 8, 9, 10, 12, 3, 0, 1, (2, 0), (2, 10), (2, 20), (2, 30), (2, 40)]
+    for j in range(n_time):
+        era = rng.choice(["small", "now", "after-2038", "near-2^51"])
+        mus = {"small": lambda: rng.randrange(1, 10 ** 9), "now": lambda: rng.randrange(15 * 10 ** 14, 19 * 10 ** 14),
+               "after-2038": lambda: rng.randrange(2 ** 31 * 10 ** 6, 2 ** 51), "near-2^51": lambda: 2 ** 51 - 1 - rng.randrange(1000)}[era]()
+        resol = rng.choice(RES)
+        k = 10 ** resol if isinstance(resol, int) else 2 ** resol[1]
+        # the instants both a whole number of microseconds and a whole number of ticks
+        grid = (10 ** max(0, 6 - resol)) if isinstance(resol, int) else 5 ** 6 * 2 ** max(0, 6 - resol[1])
+        mus -= mus % grid
+        assert (mus * k) % 10 ** 6 == 0
+        ticks = mus * k // 10 ** 6
+        if ticks >= 2 ** 64 or mus <= 0:
+            continue
+        got = impl_time_us(impl, ticks, resol, None)
+        hist["time_era=" + era] += 1
+        hist["time_resol=%s" % (resol,)] += 1
+        ck.case(("time", ticks, resol), sample=({"ticks": ticks, "if_tsresol": str(resol), "microseconds": mus, "written": got} if j % 97 == 0 else None))
+        if got != mus:
+            fails.append({"what": "time stamp: %d ticks at if_tsresol %s are %d us; exported as %s (the same instant at if_tsresol 6 is exported as %s)" % (
+                ticks, resol, mus, got, impl_time_us(impl, mus, 6, None)), "ticks": ticks, "if_tsresol": str(resol), "args": []})
+        if m:
+            mt = m.ask("timeus", zhex(ticks), zhex(k), "0")
+            if mt != "Some " + zhex(mus) and got == mus:
+                disagreements.append({"what": "time_us %d / %d" % (ticks, k), "model": mt, "impl": str(got)})
+    for j in range(n_time if m else 0):
+        # unstructured: any ticks, any resolution, any offset -- model against implementation only
+        resol = rng.choice(RES + [15, 18, 20, (2, 50), (2, 63)])
+        k = 10 ** resol if isinstance(resol, int) else 2 ** resol[1]
+        ticks = rng.choice([rng.randrange(2 ** 64), rng.randrange(2 ** 40), rng.randrange(2 ** 53 - 5, 2 ** 53 + 5), rng.randrange(10 ** 18, 3 * 10 ** 18)])
+        off = rng.choice([None, None, rng.randrange(2 * 10 ** 9), -rng.randrange(2 * 10 ** 9), rng.randrange(2 ** 63)])
+        got = impl_time_us(impl, ticks, resol, off)
+        mt = m.ask("timeus", zhex(ticks), zhex(k), zhex(off or 0))
+        mv = int(mt[5:].replace("-", "-0x") if mt[5:].startswith("-") else "0x" + mt[5:], 16) if mt.startswith("Some ") else None
+        mcanon = mv if mv is not None and 0 <= mv < 2 ** 64 else "Exn"
+        hist["time_unstructured"] += 1
+        ck.case(("time-u", ticks, resol, off))
+        if mcanon != got:
+            disagreements.append({"what": "time_us %d / %d + %s" % (ticks, k, off), "model": mt, "impl": str(got)})
     if m:
         ck.cov["oracle_queries"] = m.queries
         ck.cov["model_runs_skipped"] = m.skipped
@@ -130,7 +197,9 @@ def main():
                       "10^-12, 2^-20, 2^-30, 2^-40 (where the times are expressible), with if_tsoffset, with unrelated blocks (name resolution, statistics, custom, a second "
                       "interface) before the interface description, between the packets and at the end, as obsolete Packet Blocks, with the secrets as a block or as a file, and "
                       "as legacy pcap (-l) in both byte orders with microsecond and nanosecond magic: every export must be byte-identical to the reference; the reader model is "
-                      "compared with the implementation's reader (ticks, divisor, offset, frames, secrets) on every pcapng variant")
+                      "compared with the implementation's reader (ticks, divisor, offset, frames, secrets) on every pcapng variant; capture clocks: around 2023, whole seconds, after 2038; "
+                      "time stamps at the function level: whole-microsecond instants of four eras x 14 resolutions through reader and writer (must come out unchanged), and any "
+                      "ticks/resolution/offset against the model")
     ck.cov["dimension_histogram"] = dict(sorted(hist.items()))
     if disagreements:
         ck.broken.append({"kind": "correspondence", "count": len(disagreements), "first": [{k: v for k, v in d.items() if k != "capture"} for d in disagreements[:4]]})
@@ -140,8 +209,9 @@ def main():
         ck.violation("C12 is no longer shown to hold: " + "; ".join(b["kind"] for b in ck.broken),
                      {"broken": ck.broken, "cases": disagreements[:3], "searched": "%d container variants export identically" % ck.cov["evaluations"]}, found_input=False)
     ck.finish("proof", assumptions=[
-        "theorems: the pcapng reader recovers ticks, resolution and frames of every well-formed file of either byte order with any other blocks interspersed (if_tsoffset: "
-        "correspondence only); NOT modelled: the float conversion ticks -> seconds -> microseconds (exercised over the resolutions listed) and dpkt's legacy pcap reader",
+        "theorems: the pcapng reader recovers ticks, resolution and frames of every well-formed file of either byte order with any other blocks interspersed; the binary64 "
+        "conversion ticks -> seconds -> microseconds returns every whole-microsecond instant below 2^51 us unchanged in every resolution (Flocq; axioms of the standard "
+        "library's reals and classical logic); if_tsoffset and instants that are not whole microseconds: model against implementation only; NOT modelled: dpkt's legacy pcap reader",
         "well-formed containers only (C03 covers damage to payloads, not to the container)"])
 
 
